@@ -473,46 +473,3 @@ Proof.
   rewrite IH, qm_add_vals. destruct (bytes_eqb k (h_name hd)); [now rewrite <- app_assoc|reflexivity].
 Qed.
 
-Section Request.
-  Variable compress : N -> bytes -> bytes.
-
-  Lemma add_encq_vals es : forall q,
-    Forall (fun e => contents_ok (e_value e)) es ->
-    exists q', add_encq compress es q = Some q' /\
-               forall k, hm_vals k q' = hm_vals k q ++ enc_values_of compress k es.
-  Proof.
-    induction es as [|e es IH]; intros q HF.
-    - exists q. split; [reflexivity|]. intros k. simpl. now rewrite app_nil_r.
-    - inversion HF as [|? ? He HF']; subst. cbn [add_encq]. unfold enc_value.
-      rewrite (message_exact_proof compress _ He).
-      destruct (IH (qm_add (e_name e) [if e_b64 e then b64url (payload_of compress (e_value e))
-                                       else payload_of compress (e_value e)] q) HF') as (q' & E & V).
-      exists q'. split; [exact E|]. intros k. rewrite V, qm_add_vals. unfold enc_values_of. cbn [flat_map].
-      unfold enc_text. destruct (bytes_eqb k (e_name e)); [now rewrite <- app_assoc|reflexivity].
-  Qed.
-
-  Lemma request_exact_proof orig r :
-    token (q_verb r) -> Forall (fun e => contents_ok (e_value e)) (q_encq r) ->
-    exists s, raw_request compress orig r = Some s /\
-      s_method s = match q_verb r with [] => bs "GET" | v => v end /\
-      s_path s = fst (split_first 63 (q_uri r)) /\
-      s_body s = fst (write_body compress (q_body r)) /\
-      (forall k, hm_vals k (s_headers s) = values_of k (q_headers r)) /\
-      (forall k, hm_vals k (s_query s) =
-                 hm_vals k (uri_query (q_uri r)) ++ qvalues_of k (q_rawq r) ++ enc_values_of compress k (q_encq r)).
-  Proof.
-    intros Tv HF. unfold raw_request, uri_query.
-    destruct (split_first 63 (q_uri r)) as [path q]. cbn [fst snd].
-    set (q0 := parse_query match q with Some q1 => q1 | None => [] end).
-    destruct (add_encq_vals (q_encq r) (fold_left (fun m h => qm_add (h_name h) (h_vals h) m) (q_rawq r) q0) HF)
-      as (q2 & E & V).
-    rewrite E. unfold token in Tv. rewrite Tv. eexists. split; [reflexivity|]. cbn.
-    repeat split.
-    - intros k. rewrite add_headers_vals. reflexivity.
-    - intros k. rewrite V, rawq_vals, <- app_assoc. reflexivity.
-  Qed.
-
-  (* nothing of the request that had been built survives *)
-  Lemma request_ignores_orig_proof o1 o2 r : raw_request compress o1 r = raw_request compress o2 r.
-  Proof. reflexivity. Qed.
-End Request.
